@@ -75,7 +75,7 @@ def run(tier, seed):
                 cur = trace + f".r{rnd}"
                 open(cur, "w").write("\n".join(l for l in ls if json.loads(l).get("msg", "") != msg or json.loads(l).get("out") != "panic") + "\n")
             else:
-                raise vlib.ToolError("more than 60 distinct panic sites; stopping")
+                vlib.log("note: more than 60 distinct panic sites; the rest was not examined")
     os.remove(outf)
     rep.sample({"matrix row": "[ 1 2 3 ] -9223372036854775808 nth", "recording": [False, True]})
     rep.sample({"pair": "let \\ c"}); rep.sample({"api": "compile <corrupted source>; run; rnext; pretty_error; clone; restore"})
